@@ -11,9 +11,10 @@ import (
 	"deps.dev/util/resolve/dep"
 	"deps.dev/util/resolve/pypi"
 	"deps.dev/util/resolve/version"
+	"deps.dev/util/semver"
 )
 
-func init() { commands["pip"] = cmdPip }
+func init() { commands["pip"] = cmdPip; commands["pipmatch"] = cmdPipMatch }
 
 type pDep struct {
 	Name   string   `json:"name"`
@@ -30,8 +31,9 @@ type pPkg struct {
 	Versions []pVer `json:"versions"`
 }
 type pCase struct {
-	Universe []pPkg `json:"universe"`
-	Root     uRoot  `json:"root"`
+	Universe []pPkg          `json:"universe"`
+	Root     uRoot           `json:"root"`
+	Model    json.RawMessage `json:"model,omitempty"` // what the algorithm model PipResolve.tla returns; passed through to the trace
 }
 type pTables struct {
 	Versions []string `json:"versions"`
@@ -54,13 +56,14 @@ type pGraph struct {
 	Edges []pEdge `json:"edges"`
 }
 type pObs struct {
-	Universe []pPkg `json:"universe"`
-	Root     uRoot  `json:"root"`
-	Ok       bool   `json:"ok"` // a graph without a graph-level error was returned
-	Err      string `json:"err"`
-	GErr     string `json:"gerr"`
-	Graph    pGraph `json:"graph"`
-	Unmapped string `json:"unmapped"`
+	Universe []pPkg          `json:"universe"`
+	Root     uRoot           `json:"root"`
+	Ok       bool            `json:"ok"` // a graph without a graph-level error was returned
+	Err      string          `json:"err"`
+	GErr     string          `json:"gerr"`
+	Graph    pGraph          `json:"graph"`
+	Unmapped string          `json:"unmapped"`
+	Model    json.RawMessage `json:"model,omitempty"`
 }
 
 func loadPipUniverse(c pCase, tb pTables) *resolve.LocalClient {
@@ -150,7 +153,7 @@ func cmdPip(args []string) error {
 	defer w.Close()
 	ctx := context.Background()
 	for _, c := range cases {
-		o := pObs{Universe: c.Universe, Root: c.Root, Graph: pGraph{Nodes: []pNode{}, Edges: []pEdge{}}}
+		o := pObs{Universe: c.Universe, Root: c.Root, Graph: pGraph{Nodes: []pNode{}, Edges: []pEdge{}}, Model: c.Model}
 		lc := loadPipUniverse(c, tb)
 		g, err := pypi.NewResolver(lc).Resolve(ctx, resolve.VersionKey{PackageKey: resolve.PackageKey{System: resolve.PyPI, Name: c.Root.Name}, VersionType: resolve.Concrete, Version: tb.Versions[c.Root.V-1]})
 		if err != nil || g == nil {
@@ -168,4 +171,48 @@ func cmdPip(args []string) error {
 		}
 	}
 	return nil
+}
+
+// cmdPipMatch: vh pipmatch <tables.json> <out.json>: what util/semver answers for every (requirement, version) of the pools:
+// Constraint.Match, Constraint.MatchVersionPrerelease and Constraint.HasPrerelease.  These are facts about util/semver (decided
+// by C03); the resolver model PipResolve.tla takes them as given so that it models the resolver and nothing else.
+func cmdPipMatch(args []string) error {
+	if len(args) < 2 {
+		return fmt.Errorf("usage: pipmatch tables out")
+	}
+	var tb pTables
+	b, err := os.ReadFile(args[0])
+	if err != nil {
+		return err
+	}
+	if err := json.Unmarshal(b, &tb); err != nil {
+		return err
+	}
+	type out struct {
+		Match    [][]bool `json:"match"`
+		MatchPre [][]bool `json:"matchpre"`
+		HasPre   []bool   `json:"haspre"`
+	}
+	var o out
+	for _, r := range tb.Reqs {
+		c, err := semver.PyPI.ParseConstraint(r)
+		if err != nil {
+			return fmt.Errorf("requirement %q: %v", r, err)
+		}
+		var m, mp []bool
+		for _, v := range tb.Versions {
+			pv, err := semver.PyPI.Parse(v)
+			if err != nil {
+				return fmt.Errorf("version %q: %v", v, err)
+			}
+			m = append(m, c.Match(v))
+			mp = append(mp, c.MatchVersionPrerelease(pv))
+		}
+		o.Match, o.MatchPre, o.HasPre = append(o.Match, m), append(o.MatchPre, mp), append(o.HasPre, c.HasPrerelease())
+	}
+	b, err = json.Marshal(o)
+	if err != nil {
+		return err
+	}
+	return os.WriteFile(args[1], b, 0o644)
 }
